@@ -156,6 +156,17 @@ func plan(seed int64, tier string) []vrt.Case {
 				NC2S: 700, NS2C: 900, Seed: int64(300 + 10*i + j), PlanC2S: pl, PlanS2C: []string{"byte", "split", "pass", "split"}[j], HoldK: 64, Order: "both"})
 		}
 	}
+	// login lines around and beyond the 4096-byte buffer of a bufio.Reader (a line that does not fit
+	// must still be read whole: "for any callsign and password")
+	for i, n := range []int{4094, 4095, 4096, 4097, 5000, 10000, 70000} {
+		long := strings.Repeat("pw3456789-", n/10+1)[:n]
+		add(params{Leg: "pair", API: loginAPIs[i%len(loginAPIs)], Call: []byte("LA5NTA"), PW: []byte(long), CallClass: "realistic", PWClass: fmt.Sprintf("long%d", n),
+			NC2S: 57, NS2C: 300, Seed: int64(700 + i), PlanC2S: []string{"pass", "split", "hold"}[i%3], PlanS2C: "pass", HoldK: 1 + i, Order: "both"})
+		if n <= 10000 {
+			add(params{Leg: "pair", API: loginAPIs[(i+2)%len(loginAPIs)], Call: []byte(strings.Repeat("N0CALL-15/", n/10+1)[:n]), PW: []byte("secret"), CallClass: fmt.Sprintf("long%d", n), PWClass: "realistic",
+				NC2S: 300, NS2C: 57, Seed: int64(720 + i), PlanC2S: []string{"split", "pass", "hold"}[i%3], PlanS2C: "split", HoldK: 3, Order: "both"})
+		}
+	}
 	// payload size boundaries (bufio's 4096-byte buffer, 64 kB, nothing at all), both legs
 	for i, n := range []int{0, 1, 4095, 4096, 4097, 65536} {
 		add(params{Leg: "pair", API: loginAPIs[i%len(loginAPIs)], Call: []byte("W1AW"), PW: []byte("pw"), CallClass: "realistic", PWClass: "realistic",
